@@ -7,5 +7,5 @@ for id in $(/venv/bin/python -c "import json; print(' '.join(c['property_id'] fo
   ./check $id $TIER > /tmp/runall_$id.log 2>&1
   rc=$?
   e=$(date +%s)
-  echo "$id rc=$rc $((e-s))s $(grep -E "^$id $TIER" /tmp/runall_$id.log | cut -c1-120) $(grep -c '^VIOLATION' /tmp/runall_$id.log) viol $(grep -c '^KNOWN-FINDING' /tmp/runall_$id.log) known"
+  echo "$id rc=$rc $((e-s))s $(grep -a -E "^$id $TIER" /tmp/runall_$id.log | cut -c1-120) $(grep -a -c '^VIOLATION' /tmp/runall_$id.log) viol $(grep -a -c '^KNOWN-FINDING' /tmp/runall_$id.log) known"
 done
